@@ -875,6 +875,15 @@ def c10_directed(ctx):
         w.append({"a": "flushrpc", "r": {"ni": "*", "el": "override", "id": [0, 0]}})
         w.append({"a": "get", "g": {"ni": "*", "aft": "ALL"}})
         out.append(json.dumps(w))
+    # the scenario of GribiModifyProc: the write of a reply fails in the middle of a batch (the receive goroutine is left
+    # blocked handing over the next reply); the RPC must return, its footprint go, and another session be served
+    for nops in (2, 4):
+        w = list(pre)
+        w.append(_msg("s1", {"k": "ops", "ops": [_nh(30 + i, "DEFAULT", 5 + i) for i in range(nops)]}, sendfail=True))
+        w += [{"a": "open", "s": "s2"}, _msg("s2", {"k": "params", "red": "SINGLE_PRIMARY", "per": "PRESERVE", "ack": "RIB"}),
+              _msg("s2", {"k": "elec", "id": [0, 2]}), _msg("s2", {"k": "ops", "ops": [_nh(40, "vrf1", 7, eid=(0, 2))]}),
+              {"a": "get", "g": {"ni": "*", "aft": "nh"}}, {"a": "close", "s": "s2", "mode": "eof"}]
+        out.append(json.dumps(w))
     return out
 
 
@@ -891,6 +900,12 @@ def c07_directed(ctx):
 
 def c10_getproc_mc(ctx):
     recs = []
+    for req, rep in ((2, 2),) if ctx.tier == "quick" else ((2, 2), (3, 3)):
+        cfg = (f"SPECIFICATION MSpec\nCONSTANTS\n  Requests = {req}\n  RepliesPerRequest = {rep}\n  HoldCsAcrossSend = FALSE\n"
+               "INVARIANTS LeakedHoldNoLock\nPROPERTIES HandlerReturns OthersServed\nCHECK_DEADLOCK FALSE\n")
+        run = require_ok(ctx.tlc("GribiModifyProc", None, name="mc-modifyproc", workers=4, cfg_text=cfg, timeout=1800), "model checking GribiModifyProc")
+        recs.append({"module": "GribiModifyProc", "constants": {"Requests": req, "RepliesPerRequest": rep, "HoldCsAcrossSend": False},
+                     "properties": "LeakedHoldNoLock; HandlerReturns OthersServed (weak fairness)", "distinct_states": run.distinct, "secs": round(run.secs, 1)})
     for nni, per in ((2, 2),) if ctx.tier == "quick" else ((2, 2), (3, 3)):
         cfg = (f"SPECIFICATION GSpec\nCONSTANTS\n  NNI = {nni}\n  PerNI = {per}\n  StopByClose = TRUE\nINVARIANTS LocksBalanced\n"
                "PROPERTIES ProducerEnds LocksReleased WriterServed NoFaultDeliversAll\nCHECK_DEADLOCK FALSE\n")
